@@ -21,7 +21,7 @@ pub trait Payload: std::fmt::Debug + Default + Send + Sync + 'static {
 
 #[derive(Debug)]
 pub struct Tok { pub id: u64, pub chk: u64 }
-impl Default for Tok { fn default() -> Self { Tok { id: 0, chk: chk_of(0) } } }
+impl Default for Tok { fn default() -> Self { crate::sched::point_in_payload_code(); Tok { id: 0, chk: chk_of(0) } } }
 impl Payload for Tok {
     const DROPPY: bool = false;
     fn make(id: u64) -> Self { Tok { id, chk: chk_of(id) } }
@@ -31,7 +31,7 @@ impl Payload for Tok {
 
 #[derive(Debug)]
 pub struct DTok { pub id: u64, pub chk: u64 }
-impl Default for DTok { fn default() -> Self { DTok { id: 0, chk: chk_of(0) } } }
+impl Default for DTok { fn default() -> Self { crate::sched::point_in_payload_code(); DTok { id: 0, chk: chk_of(0) } } }
 impl Payload for DTok {
     const DROPPY: bool = true;
     fn make(id: u64) -> Self { tracker().created(id); DTok { id, chk: chk_of(id) } }
@@ -43,6 +43,7 @@ pub static RAW_DROPS: AtomicU64 = AtomicU64::new(0);
 impl Drop for DTok {
     fn drop(&mut self) {
         let addr = self as *const DTok as usize;
+        crate::sched::point_in_payload_code();
         if self.id != 0 && self.chk == chk_of(self.id) { RAW_DROPS.fetch_add(1, SeqCst); }
         tracker().dropped(self.id, self.chk, addr);
         // poison, so a later read or second drop of the same storage is recognisable
